@@ -1,9 +1,50 @@
-import Driver.Util
+import Driver.TLVal
+import Mtv.TL.Spec
+import Mtv.TL.Decode
+import Mtv.TL.Typing
+import Mtv.Gen.Registry
+import Mtv.Gen.SchemaApi
+import Mtv.Gen.SchemaMt
 namespace Driver.C02
-open Mtv Driver
+open Mtv Mtv.TL Mtv.Schema Driver Driver.TLVal
 
-/-- operations of property C02; not built yet -/
+def schema : List Def := Mtv.Gen.schemaApi ++ Mtv.Gen.schemaMt
+
+/-- hex without the digest abbreviation (stage 2 needs the bytes themselves) -/
+def fullHex (bs : Bytes) : String := toHexD bs
+
+def fuelFor (bs : Bytes) : Nat := 64 * bs.length + 4096
+
 def handle : List String → String
+  | ["c02.enc", _id, v] =>
+    match parse? v with
+    | none => "bad-op"
+    | some val =>
+      match specVal schema val with
+      | .ok bs => s!"enc={fullHex bs}"
+      | .err "notInSchema" => "enc=notInSchema"
+      | .err _ => "enc=err"
+      | .panic _ => "enc=panic"
+  | ["c02.dec", b, v] =>
+    -- bytes built from the schema decode to the corresponding value (model of the decoder)
+    match fromHex? b, parse? v with
+    | some bs, some val =>
+      match decodeUnknown Mtv.Gen.registry (fun _ => none) (fuelFor bs) [] bs with
+      | .ok got => if showVal (erase got) == showVal (erase val) then "ok" else "diff"
+      | .err _ => "err"
+      | .panic _ => "panic"
+    | _, _ => "bad-op"
+  | ["c02.str", b] =>
+    match parseBytes? b with
+    | some bs =>
+      match putMessage bs with
+      | .ok e =>
+        match popMessage (e ++ [1, 2, 3, 4]) with
+        | .ok (m, r) => s!"enc={showBytes e} back={m == bs && r == [1, 2, 3, 4]}"
+        | _ => s!"enc={showBytes e} back=err"
+      | .err _ => "refused"
+      | .panic _ => "panic"
+    | none => "bad-op"
   | _ => "bad-op"
 
 end Driver.C02
